@@ -166,6 +166,7 @@ func streamC12(env *runEnv) {
 			xff, other string
 			loginFrom  string // address of the login requests when it differs from the download's
 			login      string // ok | none | failed
+			interleave bool   // another user logs in (own browser, own session) between this login and this download
 		}
 		var reqs []req
 		params := []*string{nil, sp(addrs[0]), sp(addrs[1]), sp("10.66.66.66:3389"), sp("")}
@@ -183,6 +184,10 @@ func streamC12(env *runEnv) {
 		reqs = append(reqs,
 			req{user: "alice", sub: "alice", login: "ok", xff: "", loginFrom: "198.51.100.77", other: "198.51.100.77"},
 			req{user: "alice", sub: "alice", login: "ok", xff: "203.0.113.5", loginFrom: "198.51.100.77", other: "198.51.100.77"})
+		// other people use the gateway between this user's login and download
+		reqs = append(reqs,
+			req{user: "alice", sub: "alice", login: "ok", xff: "", other: "203.0.113.77", interleave: true},
+			req{user: "bob@example.com", sub: "bob@example.com", param: sp(addrs[0]), login: "ok", xff: "203.0.113.5", other: "203.0.113.77", interleave: true})
 		if cf.mode == "signed" {
 			now := time.Now().Unix()
 			for _, qt := range []struct {
@@ -224,6 +229,14 @@ func streamC12(env *runEnv) {
 				}
 				b.login(g, "/connect", code)
 				b.xff = rq.xff
+			}
+			if rq.interleave {
+				b2 := newBrowser()
+				at2 := at + "-someone-else"
+				idp.setToken(at2, atBehaviour{kind: "valid", sub: "mallory"})
+				idp.setCode("code-"+at2, codeBehaviour{kind: "ok", accessToken: at2, claims: map[string]interface{}{"preferred_username": "mallory"}})
+				b2.login(g, "/connect", "code-"+at2)
+				b2.get(g.base() + "/connect")
 			}
 			path := "/connect"
 			if rq.param != nil {
